@@ -237,8 +237,8 @@ pub fn run(mut ctx: Ctx) -> ! {
             "random",
             "capacity 1..=2000 (biased small, incl. the default 1024), alphabet = capacity + 0..1000, sequences up to 1500 (quick) / 5000 \
              (thorough) inserts, item types u8 / u64 / Hash; non-trivial = an evicted item is inserted again",
-            6_000,
-            120_000,
+            15_000,
+            200_000,
         )
         .min_nontrivial(0.3),
         move || random_strategy(max_cap, max_seq),
